@@ -383,6 +383,10 @@ func genSrcFile(t *rapid.T, name string, minAnnotated int) *SrcFile {
 		// one very long line (beyond 64 KiB, the default buffer of line scanners) ahead of everything else
 		s.Decls = append(s.Decls, SrcDecl{Kind: "other", Text: "const long = \"" + strings.Repeat("x", rapid.SampledFrom([]int{65530, 65536, 70000, 140000, 140000, 1100000}).Draw(t, "lineLen")) + "\" // @tag valid:\"not a field\""})
 	}
+	if rapid.IntRange(0, 399).Draw(t, "hugeFile") == 211 {
+		// a file beyond 10 MiB (whatever is read with a fixed limit stops short of its end)
+		s.Decls = append(s.Decls, SrcDecl{Kind: "other", Text: "const huge = \"" + strings.Repeat("y", 10500000) + "\""})
+	}
 	n := rapid.IntRange(1, 6).Draw(t, "nDecls")
 	sn := 0
 	for i := 0; i < n; i++ {
